@@ -12,6 +12,7 @@ import math
 import random
 
 import torch
+from .core import sint
 
 from . import tlc, tv
 
@@ -96,7 +97,7 @@ def grad_event(name, mk, cplx, shape, seed):
                 fd = float((L(x0 + eps * d) - L(x0 - eps * d)) / (2 * eps))
                 rel = abs(ana - fd) / max(abs(ana), abs(fd), 1e-12)
                 best = rel if best is None else min(best, rel)
-            ev["relerr_ppm"] = int(round(min(best, 1.0) * 1e6))
+            ev["relerr_ppm"] = sint(min(best, 1.0) * 1e6)
     except Exception as ex:
         ev["raised"] = True
         ev["error"] = repr(ex)[:150]
